@@ -197,6 +197,11 @@ fn spec_compatible(v: &Shape, l: &Shape) -> bool {
 const CODES: [u32; 19] = [0, 1, 2, 4, 5, 7, 13, 14, 16, 22, 23, 40, 41, 43, 49, 50, 67, 68, 70];
 
 fn check(ncodes: usize, maxw: usize, want_c03: bool) {
+    check_rows(0, ncodes, ncodes, maxw, want_c03)
+}
+
+/// rows [from, to) of the nesting table for the variable type x all `ncodes` nestings for the location
+fn check_rows(from: usize, to: usize, ncodes: usize, maxw: usize, want_c03: bool) {
     let sv: u32 = kani::any();
     let sl: u32 = kani::any();
     let nv: usize = kani::any();
@@ -205,8 +210,8 @@ fn check(ncodes: usize, maxw: usize, want_c03: bool) {
     // arenas are reused across nesting pairs: `build` overwrites exactly the cells it links
     let mut a1 = Arena::new();
     let mut a2 = Arena::new();
-    let mut iv = 0usize;
-    while iv < ncodes {
+    let mut iv = from;
+    while iv < to {
         let cv = CODES[iv];
         if sv == cv {
             if let Some(mut vs) = shape_of_code(cv) {
@@ -237,7 +242,7 @@ fn check(ncodes: usize, maxw: usize, want_c03: bool) {
                             }
                             kani::cover!(got && vs.n > ls.n, "accepted with a stricter (more non-null) variable type");
                             kani::cover!(!got && nv == nl && vs.n == ls.n, "rejected although names and depth agree");
-                            kani::cover!(got && vs.n == maxw && ls.n == maxw, "accepted at full depth");
+                            kani::cover!(got && ls.n >= 2, "accepted with a location type of depth >= 2");
                             core::mem::forget(v);
                             core::mem::forget(l);
                         }
@@ -283,3 +288,20 @@ fn c03_typecompat_sound_d4() {
 fn c04_typecompat_complete_d4() {
     check(19, 4, false);
 }
+
+// depth <= 3 in three slices of rows (run in parallel by the runner)
+macro_rules! rows_harness {
+    ($name:ident, $from:expr, $to:expr, $c03:expr) => {
+        #[kani::proof]
+        #[kani::unwind(13)]
+        fn $name() {
+            check_rows($from, $to, 11, 3, $c03);
+        }
+    };
+}
+rows_harness!(c03_typecompat_sound_d3_r0, 0, 4, true);
+rows_harness!(c03_typecompat_sound_d3_r1, 4, 8, true);
+rows_harness!(c03_typecompat_sound_d3_r2, 8, 11, true);
+rows_harness!(c04_typecompat_complete_d3_r0, 0, 4, false);
+rows_harness!(c04_typecompat_complete_d3_r1, 4, 8, false);
+rows_harness!(c04_typecompat_complete_d3_r2, 8, 11, false);
